@@ -14,7 +14,8 @@ Record Fr (s s' : state) : Prop := mkFr {
   fr_att : s_att s' = s_att s \/ parked s = true /\ 1 <= s_att s' <= 2;
   fr_rcall : rcall_active s' = true -> rcall_active s = true \/ parked s = true;
   fr_cf : s_cf s' = s_cf s;
-  fr_looper : s_looper s' = s_looper s \/ s_looper s' = None
+  fr_looper : s_looper s' = s_looper s \/ s_looper s' = None;
+  fr_pend : retry_idxs (s_pend s') = retry_idxs (s_pend s)
 }.
 (* what handling a fetch reply (KFetchResp) may do *)
 Record FrK (s : state) (r : res unit) (s' : state) : Prop := mkFrK {
@@ -24,14 +25,15 @@ Record FrK (s : state) (r : res unit) (s' : state) : Prop := mkFrK {
   fk_ridx : s_ridx s' = 0;
   fk_att : 1 <= s_att s' <= 2;
   fk_cf : s_cf s' = s_cf s;
-  fk_looper : s_looper s' = s_looper s \/ s_looper s' = None
+  fk_looper : s_looper s' = s_looper s \/ s_looper s' = None;
+  fk_pend : retry_idxs (s_pend s') = retry_idxs (s_pend s)
 }.
 
 Lemma Fr_refl s : Fr s s.
 Proof. constructor; auto. Qed.
 Lemma Fr_trans a b c : Fr a b -> Fr b c -> Fr a c.
 Proof.
-  intros [r1 d1 p1 i1 a1 c1 f1 l1] [r2 d2 p2 i2 a2 c2 f2 l2]. constructor.
+  intros [r1 d1 p1 i1 a1 c1 f1 l1 q1] [r2 d2 p2 i2 a2 c2 f2 l2 q2]. constructor.
   - destruct r2 as [->| ->]; auto.
   - auto.
   - auto.
@@ -40,6 +42,7 @@ Proof.
   - intro H. destruct (c2 H) as [H1|H1]; auto.
   - congruence.
   - destruct l2 as [->| ->]; auto.
+  - congruence.
 Qed.
 
 Definition no_idx (o : list output) : Prop := retry_idxs o = [].
@@ -49,8 +52,9 @@ Lemma no_idx_nil : no_idx []. Proof. reflexivity. Qed.
 
 (* an explicit state change satisfies Fr: compute *)
 Ltac fr_explicit :=
-  constructor; psimpl; unfold parked, rcall_active in *; psimpl;
-  try solve [ auto | left; reflexivity | right; reflexivity | intros; congruence | intros; discriminate ].
+  constructor; psimpl; unfold parked, rcall_active in *; psimpl; rewrite ?retry_idxs_app; cbn [retry_idxs app];
+  try solve [ auto | left; reflexivity | right; reflexivity | intros; congruence | intros; discriminate
+            | rewrite app_nil_r; reflexivity ].
 
 Lemma fuel_ok_app_inv a b : fuel_ok (a ++ b) = true -> fuel_ok a = true /\ fuel_ok b = true.
 Proof. apply fuel_ok_app. Qed.
@@ -94,7 +98,11 @@ Qed.
 Lemma pop_plan_fr s r s' o : pop_plan s = (r, s', o) -> Fr s s' /\ no_idx o.
 Proof. intro H. unfold pop_plan in H. mi H; fr_done. Qed.
 Lemma emit_shutd_fr x s r s' o : emit_shutd x s = (r, s', o) -> (forall k i, x <> OSched k i) -> Fr s s' /\ no_idx o.
-Proof. intros H Hx. unfold emit_shutd in H. mi H; split; try fr_chain. all: destruct x; try reflexivity; exfalso; eapply Hx; reflexivity. Qed.
+Proof.
+  intros H Hx. assert (Hn : retry_idxs [x] = []) by (destruct x; try reflexivity; exfalso; eapply Hx; reflexivity).
+  unfold emit_shutd in H. mi H; split; try exact Hn; try reflexivity.
+  all: constructor; psimpl; unfold parked, rcall_active in *; psimpl; rewrite ?retry_idxs_app, ?Hn, ?app_nil_r; auto.
+Qed.
 Lemma interrupted_fr s r s' o : interrupted s = (r, s', o) -> Fr s s' /\ no_idx o.
 Proof.
   intro H. unfold interrupted in H. mi H.
@@ -158,7 +166,7 @@ Lemma finish_block_fr s r s' o : finish_block (run f) s = (r, s', o) -> fuel_ok 
 Proof.
   intros H Hf. unfold finish_block in H. mi H; fuel_split; use_ih; try fr_done.
   (* the parked reply *)
-  all: match goal with K : FrK _ _ _ |- _ => destruct K as [r2 d2 p2 i2 a2 c2 l2] end; psimpl; rewrite ?D; auto.
+  all: match goal with K : FrK _ _ _ |- _ => destruct K as [r2 d2 p2 i2 a2 c2 l2 q2] end; psimpl; rewrite ?D; auto.
 Qed.
 
 Ltac specs :=
@@ -206,7 +214,7 @@ Proof. intros H Hf. cbn [body] in H. mi H; fuel_split; use_ih; specs; fr_done. Q
 
 Lemma FrK_nonpark s r Y : s_mblock s = None -> Fr (set_req None (set_att 1 (set_ridx 0 s))) Y -> FrK s r Y.
 Proof.
-  intros Hm [r2 d2 p2 i2 a2 c2 f2 l2]. unfold parked in *. psimpl. rewrite Hm in *.
+  intros Hm [r2 d2 p2 i2 a2 c2 f2 l2 q2]. unfold parked in *. psimpl. rewrite Hm in *.
   constructor.
   - right. destruct r2 as [->| ->]; reflexivity.
   - exact d2.
@@ -215,12 +223,13 @@ Proof.
   - destruct a2 as [->|[? _]]; [lia | discriminate].
   - exact f2.
   - exact l2.
+  - exact q2.
 Qed.
 Lemma FrK_nonpark_retry s r Y : s_mblock s = None -> Fr (set_req None (set_att 1 (set_ridx 0 s))) Y ->
   FrK s r (set_rcall (Some 0) (set_att (s_att Y + 1) Y)).
 Proof.
-  intros Hm F. destruct (FrK_nonpark s r Y Hm F) as [r2 d2 p2 i2 a2 f2 l2].
-  destruct F as [_ _ _ _ a3 _ _ _]. unfold parked in *. psimpl. rewrite Hm in *.
+  intros Hm F. destruct (FrK_nonpark s r Y Hm F) as [r2 d2 p2 i2 a2 f2 l2 q2].
+  destruct F as [_ _ _ _ a3 _ _ _ _]. unfold parked in *. psimpl. rewrite Hm in *.
   constructor; psimpl; auto.
   - unfold parked. psimpl. rewrite Hm. exact p2.
   - destruct a3 as [->|[? _]]; [lia | discriminate].
